@@ -218,7 +218,62 @@ def discs_s(draw):
     return case
 
 
+def run_total(c):
+    """the function as its caller uses it: total_intersection_area(die) = sum over ordered pairs of modules of the overlap of their discs"""
+    from frame.netlist.netlist import Netlist
+    from tools.force.fruchterman_reingold import total_intersection_area
+    Rectangle.undefine_epsilon()
+    try:
+        mods = {"M%d" % k: {"area": float(a), "center": [float(x), float(y)]} for k, (a, x, y) in enumerate(c["mods"])}
+        nl = Netlist({"Modules": mods, "Nets": []})
+        die = Die({"width": float(c["W"]), "height": float(c["H"])}, nl)
+        try:
+            got = total_intersection_area(die)
+        except Exception as e:
+            raise Violation("total_intersection_area raised %s: %s on modules (area, x, y) %s" % (type(e).__name__, e, c["mods"]), "raised")
+        discs = [(float(m.center.x), float(m.center.y), math.sqrt(m.area() / math.pi)) for m in nl.modules]
+        ref = mpmath.mpf(0)
+        for i, (x1, y1, r1) in enumerate(discs):
+            for j, (x2, y2, r2) in enumerate(discs):
+                if i != j:
+                    ref += lens(x1, y1, r1, x2, y2, r2)
+        n, R = len(discs), max(d[2] for d in discs)
+        if not math.isfinite(got) or abs(mpmath.mpf(got) - ref) > n * (n - 1) * mpmath.mpf(1e-5) * R * R:
+            raise Violation("total_intersection_area = %r on modules (area, x, y) %s; the exact lens areas of the ordered pairs sum to %s" % (
+                got, c["mods"], mpmath.nstr(ref, 17)), "total-inaccurate")
+        cls = []
+        if any(a[1:] == b[1:] and a[0] == b[0] for i, a in enumerate(c["mods"]) for b in c["mods"][i + 1:]):
+            cls.append("equal-modules-on-one-point")
+        if any(a[1:] == b[1:] and a[0] != b[0] for i, a in enumerate(c["mods"]) for b in c["mods"][i + 1:]):
+            cls.append("unequal-modules-on-one-point")
+        return dict(nt=ref > 0, cls=cls)
+    finally:
+        Rectangle.undefine_epsilon()
+
+
+@st.composite
+def total_s(draw):
+    W, H = draw(_i(4, 40)), draw(_i(4, 40))
+    mods = []
+    for k in range(draw(_i(2, 4))):
+        a = draw(st.sampled_from([1, 2, 4, 4, 0.5, 9, 12.25, 3.14]))
+        x, y = draw(_i(0, 2 * W)) / 2, draw(_i(0, 2 * H)) / 2
+        w = draw(_i(0, 5))
+        if mods and w == 0:
+            a, x, y = mods[-1]  # an identical twin on the same point
+        elif mods and w == 1:
+            x, y = mods[-1][1], mods[-1][2]  # same point, other area
+        elif mods and w == 2:
+            # tangent to the previous one along x
+            x = mods[-1][1] + math.sqrt(mods[-1][0] / math.pi) + math.sqrt(a / math.pi)
+            y = mods[-1][2]
+        mods.append([a, x, y])
+    return dict(W=W, H=H, mods=mods)
+
+
 def subchecks():
     return [Sub("discs", run_discs, strategy=discs_s(), n_quick=60000, n_thorough=1500000, fuzz_thorough=30000,
                 required=("ext-tangent", "int-tangent", "equal-radii", "concentric", "crossing", "apart", "nested", "chord-through-centre", "distance-squared-underflows", "distance-equals-a-radius", "centre-moved-in-place-then-asked-again",
-                          "a-die-was-built-before", "shallow-overlap-on-a-large-die"))]
+                          "a-die-was-built-before", "shallow-overlap-on-a-large-die")),
+            Sub("total", run_total, strategy=total_s(), n_quick=6000, n_thorough=100000,
+                required=("equal-modules-on-one-point", "unequal-modules-on-one-point"))]
